@@ -368,6 +368,10 @@ def correspondence(ctx, prop, model_mod, scenarios, label):
     nontrivial = set()
     known_sigs = {e['sig'] for e in load_findings(ctx.pid) if e.get('status') == 'known'}
     for lines, io, mo, hs in zip(scenarios, impl_obs, model_obs, hints):
+        if any(o.startswith('SKIP ') for o in io):
+            # the runner could not observe something the comparison needs (stated in the line)
+            ctx.cov['skipped_scenarios'] = ctx.cov.get('skipped_scenarios', 0) + 1
+            continue
         pi, pm = prop.project(io), prop.project(mo)
         if any(o.startswith('bad-op') or o == 'not-implemented' or o == 'bad-model' for o in mo):
             raise MachineryError(f'model rejected scenario: {mo[:5]} in {lines[:40]}')
@@ -431,6 +435,16 @@ def run_check(pid, tier, seed):
         'model<->code tie: ' + getattr(prop, 'TIE', 'correspondence check (differential run of the '
                                       'Lean model and the real desper code on generated scenarios)'),
     ] + list(getattr(prop, 'TRUSTED', []))
+
+    # 2b. thorough tier: independent re-check of the compiled proofs with leanchecker -----------
+    if tier == 'thorough' and b['ok']:
+        with BuildLock():
+            t0 = time.time()
+            rc, out = _run(['lake', 'env', 'leanchecker', f'DesperProofs.Props.{pid}'], LEAN)
+        cov['leanchecker'] = {'cmd': f'cd lean && lake env leanchecker DesperProofs.Props.{pid}',
+                              'exit': rc, 'wall_s': round(time.time() - t0, 1)}
+        if rc != 0:
+            raise MachineryError('leanchecker rejected the compiled proofs:\n' + out[-2000:])
 
     # 3. corpus + generated scenarios -----------------------------------------------------------
     rng = random.Random(seed * 1000003 + int(pid[1:]))
